@@ -44,19 +44,25 @@ def stop (c : SoundCore α) (tw : Tween α) : SoundCore α := syncShared { c wit
     (natural end, decoder error, start time that can never come) -/
 def markStopped (c : SoundCore α) : SoundCore α := syncShared { c with psm := c.psm.markAsStopped }
 
-/-- mirrors: the gating prefix of `process`: update the state manager and the start time; the
-    Boolean says whether the sound renders audio in this call (`false` = the buffer is zero-filled
-    and nothing else is touched). `dtc = dt * out.len()`. -/
-def gate (c : SoundCore α) (dtc : α) (info : Info α) : SoundCore α × Bool :=
+/-- `process`, step 1: `if playback_state_manager.update(..) { update_shared_playback_state() }` -/
+def gatePsm (c : SoundCore α) (dtc : α) (info : Info α) : SoundCore α :=
   let r := c.psm.update dtc info
   let c1 : SoundCore α := { c with psm := r.1 }
-  let c2 := if r.2 then c1.syncShared else c1
-  let u := c2.startTime.update dtc info
-  let c3 : SoundCore α := { c2 with startTime := u.1 }
-  let c4 := if u.2 then c3.markStopped else c3
-  if !u.1.isImmediate then (c4, false)
-  else if !c4.psm.playbackState.isAdvancing then (c4, false)
-  else (c4, true)
+  if r.2 then c1.syncShared else c1
+
+/-- `process`, step 2: `if start_time.update(..) { mark_as_stopped(); update_shared_playback_state() }` -/
+def gateStart (c : SoundCore α) (dtc : α) (info : Info α) : SoundCore α :=
+  let u := c.startTime.update dtc info
+  let c1 : SoundCore α := { c with startTime := u.1 }
+  if u.2 then c1.markStopped else c1
+
+/-- mirrors: the gating prefix of `process`: update the state manager and the start time; the
+    Boolean says whether the sound renders audio in this call (`false` = the buffer is zero-filled
+    and nothing else is touched: the start time is still pending, or the state does not advance).
+    `dtc = dt * out.len()`. -/
+def gate (c : SoundCore α) (dtc : α) (info : Info α) : SoundCore α × Bool :=
+  let c' := (c.gatePsm dtc info).gateStart dtc info
+  (c', c'.startTime.isImmediate && c'.psm.playbackState.isAdvancing)
 
 /-- mirrors: Sound::finished -/
 def finished (c : SoundCore α) : Bool := c.psm.playbackState == .stopped
